@@ -174,6 +174,31 @@ def _entries(ctx, index, funcs):
     ctx.floor("parameter entry literals", n_lit, 3)
 
 
+_STR_PREDICATES = frozenset("isalpha isalnum isidentifier isdigit isdecimal isnumeric islower isupper istitle isascii isprintable".split())
+
+
+def _vacuous(test):
+    """
+    `all(filter(str.isalpha, xs))`, `all(x for x in xs if x.isalpha())`: every element that passes a str predicate of
+    this family is a non-empty string, hence truthy — the condition is always true, whatever xs holds (isspace /
+    isprintable of '' aside: isprintable('') is True and '' is falsy, so it is not in the family below for `all`)
+    """
+    preds = _STR_PREDICATES - {"isprintable", "isascii"}
+    if not (isinstance(test, ast.Call) and isinstance(test.func, ast.Name) and test.func.id == "all" and len(test.args) == 1):
+        return False
+    a = test.args[0]
+    if isinstance(a, ast.Call) and isinstance(a.func, ast.Name) and a.func.id == "filter" and len(a.args) == 2:
+        f = a.args[0]
+        return isinstance(f, ast.Attribute) and isinstance(f.value, ast.Name) and f.value.id == "str" and f.attr in preds
+    if isinstance(a, (ast.GeneratorExp, ast.ListComp)) and len(a.generators) == 1 and isinstance(a.elt, ast.Name) and isinstance(a.generators[0].target, ast.Name) and a.elt.id == a.generators[0].target.id:
+        v = a.elt.id
+        for c in a.generators[0].ifs:
+            if isinstance(c, ast.Call) and isinstance(c.func, ast.Attribute) and c.func.attr in preds:
+                if (isinstance(c.func.value, ast.Name) and c.func.value.id == v and not c.args) or (isinstance(c.func.value, ast.Name) and c.func.value.id == "str" and len(c.args) == 1 and isinstance(c.args[0], ast.Name) and c.args[0].id == v):
+                    return True
+    return False
+
+
 def _removals(ctx, index, funcs):
     """
     A producer that adopts a foreign-vocabulary object translates some of its keys away
@@ -224,7 +249,7 @@ def _removals(ctx, index, funcs):
                             for c in rel
                         )
                         verdict = (member, rel[0])
-                    else:
+                    elif not _vacuous(test):
                         # a further condition the removal sits under that says nothing about the key's presence
                         extras.append(short(test, 70))
                 child, p = p, par.get(p)
